@@ -336,6 +336,18 @@ func (a *BigInt) pow(b, m *BigInt) (Object, error) {
 		}
 		return fa.M__pow__(fb, None)
 	}
+	if m != nil {
+		if (*big.Int)(m).Sign() == 0 {
+			return nil, ExceptionNewf(ValueError, "pow() 3rd argument cannot be 0")
+		}
+		// big.Int.Exp ignores the sign of the modulus but in python
+		// the result takes the sign of the modulus
+		r := new(big.Int).Exp((*big.Int)(a), (*big.Int)(b), (*big.Int)(m))
+		if (*big.Int)(m).Sign() < 0 && r.Sign() != 0 {
+			r.Add(r, (*big.Int)(m))
+		}
+		return (*BigInt)(r).MaybeInt(), nil
+	}
 	return (*BigInt)(new(big.Int).Exp((*big.Int)(a), (*big.Int)(b), (*big.Int)(m))).MaybeInt(), nil
 }
 
